@@ -469,7 +469,7 @@ def run_record(acc, base, clsname, seed, tier, engines):
         view_big, st_big = cycle(w, clsname, cseed, big=2, want_state=True, create=create)
         states[id(view_big)] = st_big
         shutil.rmtree(w, ignore_errors=True)
-        n4 = 10 if tier == "quick" else 150
+        n4 = 10 if tier == "quick" else 60
         for j in range(n4):
             wk = fresh("r")
             rd, wr = os.pipe()
@@ -502,7 +502,7 @@ def run_record(acc, base, clsname, seed, tier, engines):
 
 
 def units(tier, seed):
-    n = 10 if tier == "quick" else 32
+    n = 10 if tier == "quick" else 12
     us = []
     for i in range(n):
         us.append({"seed": seed * 6151 + i, "cls": list(RE.CLS)[i % 2], "engines": ["E1", "E2", "E3", "E4"]})
